@@ -47,6 +47,8 @@ use datafusion_proto::protobuf as pb;
 use h_util::{arg, json_str, Rng};
 use refsql_gen::*;
 
+/// prefix of at most n bytes that ends on a character boundary
+fn cut(s: &str, mut n: usize) -> &str { if n >= s.len() { return s; } while !s.is_char_boundary(n) { n -= 1; } &s[..n] }
 fn kind_name(s: &str) -> String { s.chars().take_while(|c| c.is_ascii_alphanumeric() || *c == '_').collect() }
 fn dbg_kind<T: std::fmt::Debug>(v: &T) -> String { kind_name(&format!("{v:?}")) }
 fn panic_msg(p: Box<dyn std::any::Any + Send>) -> String {
@@ -116,6 +118,7 @@ async fn check(ctx: &SessionContext, fresh: &SessionContext, plan: &Arc<dyn Exec
         Err(e) => fail(&mut out, format!("binary encoding succeeded but JSON encoding failed: {e}")),
     }
     out.back = Some(back.clone());
+    let limited = text.contains("LimitExec") || text.contains("fetch=") || text.contains("TopK");
     if exec && out.ok {
         let r1 = datafusion::physical_plan::collect(plan.clone(), ctx.task_ctx()).await;
         let r2 = datafusion::physical_plan::collect(back, fresh.task_ctx()).await;
@@ -124,7 +127,9 @@ async fn check(ctx: &SessionContext, fresh: &SessionContext, plan: &Arc<dyn Exec
                 let (mut x, mut y) = (rows_of(&a), rows_of(&b));
                 out.rows = x.len() as i64;
                 if !ordered { x.sort(); y.sort(); }
-                if x != y { fail(&mut out, format!("results differ: original {} rows {:?} / decoded {} rows {:?}", x.len(), &x[..x.len().min(6)], y.len(), &y[..y.len().min(6)])); }
+                // a LIMIT / OFFSET over a sort with ties may legitimately keep different rows on every execution: compare the row count only
+                if limited && !ordered { if x.len() != y.len() { fail(&mut out, format!("row counts differ: original {} / decoded {}", x.len(), y.len())); } }
+                else if x != y { fail(&mut out, format!("results differ: original {} rows {:?} / decoded {} rows {:?}", x.len(), &x[..x.len().min(6)], y.len(), &y[..y.len().min(6)])); }
             }
             (Err(_), Err(_)) => {}
             (Ok(_), Err(e)) => fail(&mut out, format!("the decoded plan fails to execute: {e}")),
@@ -141,7 +146,7 @@ fn obs_json(o: &[Obs]) -> String {
         x.back.as_ref().map(|b| json_str(b)).unwrap_or("null".into()))).collect::<Vec<_>>().join(","))
 }
 fn diff_json(d: &Option<Vec<(String, String)>>) -> String {
-    match d { Some(d) => format!("[{}]", d.iter().map(|(x, y)| format!("[{},{}]", json_str(&x[..x.len().min(1500)]), json_str(&y[..y.len().min(1500)]))).collect::<Vec<_>>().join(",")), None => "null".into() }
+    match d { Some(d) => format!("[{}]", d.iter().map(|(x, y)| format!("[{},{}]", json_str(cut(&x, 1500)), json_str(cut(&y, 1500)))).collect::<Vec<_>>().join(",")), None => "null".into() }
 }
 fn down<T: ExecutionPlan>(p: &Option<Arc<dyn ExecutionPlan>>) -> Option<&T> { p.as_ref().and_then(|x| x.downcast_ref::<T>()) }
 
@@ -427,11 +432,11 @@ async fn run_op(ctx: &SessionContext, id: usize, case: &Case) {
     let fresh = SessionContext::new();
     let out = check(ctx, &fresh, plan, *exec, *ordered).await;
     let obs = observe(plan, &out);
-    let mut t = out.text.clone(); if t.len() > 1500 { t.truncate(1500); t.push_str("..."); }
+    let mut t = out.text.clone(); if t.len() > 1500 { let k = cut(&t, 1500).len(); t.truncate(k); t.push_str("..."); }
     let (hj, so) = (observe_hj(plan, &out), observe_sort(plan, &out));
     println!("{{\"k\":\"op\",\"id\":{id},\"name\":{},\"key\":{},\"hj\":{hj},\"sort\":{so},\"diff\":{},\"bytes\":{},\"rows\":{},\"skipped\":{},\"why\":{},\"plan\":{},\"obs\":{},\"ok\":{}}}",
-        json_str(name), json_str(key), diff_json(&out.diff), out.bytes, out.rows, out.skipped.as_ref().map(|s| json_str(&s[..s.len().min(400)])).unwrap_or("null".into()),
-        out.why.as_ref().map(|s| json_str(&s[..s.len().min(1500)])).unwrap_or("null".into()), json_str(&t), obs_json(&obs), out.ok);
+        json_str(name), json_str(key), diff_json(&out.diff), out.bytes, out.rows, out.skipped.as_ref().map(|s| json_str(cut(&s, 400))).unwrap_or("null".into()),
+        out.why.as_ref().map(|s| json_str(cut(&s, 1500))).unwrap_or("null".into()), json_str(&t), obs_json(&obs), out.ok);
 }
 
 // ------------------------------------------------------------------------------------------------ SQL plans
@@ -568,17 +573,17 @@ async fn sql_case(conf: Conf, names: Vec<String>, tabs: Vec<Tab>, dir: String, i
     let ctx = mk_ctx(&conf, &names, &tabs, &dir, &format!("{id}_o")).await;
     let fresh = mk_ctx(&conf, &names, &tabs, &dir, &format!("{id}_o")).await;
     let head = format!("\"k\":\"plan\",\"id\":\"{id}\",\"stream\":\"{stream}\",\"conf\":\"{}\",\"sql\":{}", conf.name, json_str(&sql));
-    let df = match ctx.sql(&sql).await { Ok(d) => d, Err(e) => { println!("{{{head},\"plan_err\":{},\"nodes\":[],\"ok\":true}}", json_str(&e.to_string()[..e.to_string().len().min(300)])); return; } };
+    let df = match ctx.sql(&sql).await { Ok(d) => d, Err(e) => { println!("{{{head},\"plan_err\":{},\"nodes\":[],\"ok\":true}}", json_str(cut(&e.to_string(), 300))); return; } };
     let exec = !(sql.starts_with("COPY") || sql.starts_with("INSERT") || sql.starts_with("EXPLAIN"));
-    let plan = match df.create_physical_plan().await { Ok(p) => p, Err(e) => { println!("{{{head},\"plan_err\":{},\"nodes\":[],\"ok\":true}}", json_str(&e.to_string()[..e.to_string().len().min(300)])); return; } };
+    let plan = match df.create_physical_plan().await { Ok(p) => p, Err(e) => { println!("{{{head},\"plan_err\":{},\"nodes\":[],\"ok\":true}}", json_str(cut(&e.to_string(), 300))); return; } };
     let ordered = false;   // SQL results are compared as multisets (ties make the order of equal keys unspecified)
     let out = check(&ctx, &fresh, &plan, exec, ordered).await;
     let mut kinds: Vec<String> = out.text.lines().map(|l| kind_name(l.trim_start())).collect(); kinds.sort(); kinds.dedup();
-    let mut t = out.text.clone(); if t.len() > 2500 { t.truncate(2500); t.push_str("..."); }
+    let mut t = out.text.clone(); if t.len() > 2500 { let k = cut(&t, 2500).len(); t.truncate(k); t.push_str("..."); }
     println!("{{{head},\"plan_err\":null,\"nodes\":[{}],\"diff\":{},\"bytes\":{},\"rows\":{},\"skipped\":{},\"why\":{},\"plan\":{},\"ok\":{}}}",
         kinds.iter().map(|k| format!("\"{k}\"")).collect::<Vec<_>>().join(","), diff_json(&out.diff), out.bytes, out.rows,
-        out.skipped.as_ref().map(|s| json_str(&s[..s.len().min(400)])).unwrap_or("null".into()),
-        out.why.as_ref().map(|s| json_str(&s[..s.len().min(2500)])).unwrap_or("null".into()), if out.ok && out.skipped.is_none() { "null".to_string() } else { json_str(&t) }, out.ok);
+        out.skipped.as_ref().map(|s| json_str(cut(&s, 400))).unwrap_or("null".into()),
+        out.why.as_ref().map(|s| json_str(cut(&s, 2500))).unwrap_or("null".into()), if out.ok && out.skipped.is_none() { "null".to_string() } else { json_str(&t) }, out.ok);
 }
 
 fn run_sql_case(conf: Conf, names: Vec<String>, tabs: Vec<Tab>, dir: String, id: String, stream: String, sql: String) {
